@@ -4844,6 +4844,9 @@ class ParseCtx:
     def _parse_macro_call(self, lark_node_for_error: lark.Tree, macro: Macro, arguments: List[lark.Tree]):
         if len(arguments) != len(macro.arguments):
             raise IllegalParseTree("Incorrect number of arguments", lark_node_for_error)
+        # a macro may legitimately be active more than once (passed different macro arguments), so only bound the depth
+        if len(self.bound_argument_stack) >= 64:
+            raise IllegalParseTree("Macro expansion is nested too deeply (macros cannot recurse)", lark_node_for_error)
         self.bound_argument_stack.append(
             macro.bind_arguments_for(arguments, self)
         )
